@@ -278,7 +278,8 @@ fn gen_str(t: &mut Tape) -> Vec<u8> {
     match t.weighted(&[8, 3]) {
         0 => {
             // valid-UTF-8 part of the byte generators: regenerate with lossy conversion when needed
-            let (x, _) = match t.weighted(&[4, 6, 2, 1]) {
+            let (x, _) = match t.weighted(&[8, 12, 4, 2, 1]) {
+                4 => (gen::gen_other_notation(t), ""),
                 0 => {
                     let mut l = gen::gen_valid_line(t, false);
                     if t.coin() {
